@@ -324,7 +324,10 @@ func RegexpQuery(text string, content, file bool) (Q, error) {
 
 	r = OptimizeRegexp(r, regexpFlags)
 
-	if r.Op == syntax.OpLiteral {
+	// A literal that carries the FoldCase flag ([fF], (?i:foo)) matches both
+	// spellings whatever the case setting of the query; Substring cannot
+	// express that, so it stays a regexp.
+	if r.Op == syntax.OpLiteral && r.Flags&syntax.FoldCase == 0 {
 		expr = &Substring{
 			Pattern:  string(r.Rune),
 			FileName: file,
